@@ -631,3 +631,20 @@ Proof. exact Proofs.FnRefSexesMerge.fn_sexes_inferred_eq. Qed.
 Theorem C05_source_sexes_given : forall female targets k,
   Proofs.FnRefSexesGiven.given_loop female (fun _ => None) (map s_id targets) k = dict_get (sexes_given female targets) k.
 Proof. exact Proofs.FnRefSexesGiven.fn_given_loop_eq. Qed.
+
+From CNV Require Proofs.FnRefSummarize.
+
+(* summarize_info per bin (= per column of all_logr / all_depths): the model's consensus is the translated code -- log2 the
+   biweight location of the log2 column, depth that of the depth column, spread the biweight midvariance of the log2 column
+   with initial = the log2 centre (the model carries its square) *)
+Theorem C05_source_summarize : forall b col dcol (bivar : list Q -> Q -> Q),
+  let r := Gen.FnRefSummarize.fn_summarize col dcol ref_biloc bivar in
+  let c := consensus (b, col, dcol) in
+  r_log2 c = fst (fst r) /\ r_depth c = snd (fst r) /\ snd r = bivar col (r_log2 c) /\
+  r_spread_sq c = ref_bivar_sq col (r_log2 c).
+Proof. exact Proofs.FnRefSummarize.fn_summarize_eq. Qed.
+
+Theorem C05_source_summarize_spread : forall b col dcol (bivar : list Q -> Q -> Q),
+  (forall a i, qsq (bivar a i) == ref_bivar_sq a i) ->
+  r_spread_sq (consensus (b, col, dcol)) == qsq (snd (Gen.FnRefSummarize.fn_summarize col dcol ref_biloc bivar)).
+Proof. exact Proofs.FnRefSummarize.fn_summarize_spread. Qed.
